@@ -87,11 +87,23 @@ def _values(rng, t, n):
 
 
 def cases(rng, tier):
-    yield from int_cases(rng, tier)
-    yield from ext_cases(rng, tier)
-    yield from float_cases(rng, tier)
-    yield from smallest_cases(rng, tier)
-    yield from column_cases(rng, tier)
+    for gen in (int_cases, ext_cases, float_cases, smallest_cases, column_cases, interval32_cases):
+        for c in gen(rng, tier):
+            rt = c.get("rt")
+            if rt and rt.get("enc") in ("rle", "delta", "pack", "bytes", "compress_int", "compress_float") and rng.random() < 0.35:
+                rt["be"] = True          # same values, big-endian byte order (oracle only; the model has no byte order)
+            yield c
+
+
+def interval32_cases(rng, tier):
+    """oracle-only: IntervalQuantization on float32/float64 data over non-dyadic grids (0..1 in 11 steps, ...)."""
+    for _ in range(60 if tier == "quick" else 1500):
+        n = rng.choice([3, 6, 11, 21, 101])
+        mn = rng.choice([0.0, -1.0, 0.1, 2.5])
+        mx = mn + rng.choice([1.0, 0.7, 3.3, 10.0])
+        yield {"kind": "interval32", "rt": {"enc": "interval_float", "min": mn, "max": mx, "n": n, "ft": rng.choice(["f4", "f4", "f8"]),
+                                            "on_grid": [rng.randrange(n) for _ in range(rng.randint(1, 6))],
+                                            "fracs": [rng.random() for _ in range(rng.randint(0, 4))]}}
 
 
 def int_cases(rng, tier):
@@ -253,7 +265,7 @@ def float_cases(rng, tier):
     for _ in range(n_cases):
         ft = rng.choice(["f4", "f8"])
         n = rng.choice([1, 2, 3, 6, 12, 40])
-        style = rng.choice(["coords", "coords", "occupancy", "wide", "special", "ints"])
+        style = rng.choice(["coords", "coords", "occupancy", "wide", "special", "ints", "round", "negbig"])
         if style == "coords":
             xs = [round(rng.uniform(-500, 500), 3) for _ in range(n)]
         elif style == "occupancy":
@@ -262,6 +274,13 @@ def float_cases(rng, tier):
             xs = [rng.uniform(-1, 1) * 10 ** rng.randint(-12, 9) for _ in range(n)]
         elif style == "ints":
             xs = [float(rng.randint(-10 ** rng.randint(0, 10), 10 ** rng.randint(0, 10))) for _ in range(n)]
+        elif style == "round":
+            # few significant digits, large magnitude: _get_decimal_places returns a NEGATIVE decimal count
+            xs = [rng.choice([-1, 1]) * rng.randint(1, 99) * 10.0 ** rng.randint(7, 23) if rng.random() < 0.6 else float(rng.randint(-50, 50)) for _ in range(n)]
+        elif style == "negbig":
+            # the largest magnitude is negative, next to tiny high-precision values
+            xs = [-rng.uniform(20, 9000) for _ in range(n)]
+            xs[rng.randrange(n)] = -rng.uniform(1, 9) * 10.0 ** -rng.randint(3, 7)
         else:
             xs = [rng.choice(special) if rng.random() < 0.4 else round(rng.uniform(-50, 50), 2) for _ in range(n)]
         tol = rng.choice([1e-6, 1e-6, 1e-3, 1e-9])
@@ -423,6 +442,13 @@ def _same_float(a, b):
     return a == b
 
 
+def _maybe_big_endian(arr, rt):
+    """Half of the round-trip cases present the same values as a big-endian array (legal numpy input)."""
+    if rt.get("be") and arr.dtype.kind in "iuf" and arr.dtype.itemsize > 1:
+        return arr.astype(arr.dtype.newbyteorder(">"))
+    return arr
+
+
 def oracle(case):
     """decode(encode(x)) == x on the real code (within the stated precision for floats), or a rejection;
     never a silently different array.  Written from the property statement only."""
@@ -454,6 +480,7 @@ def oracle(case):
             else:
                 arr = np.array(data, dtype=NP[rt["dtype"]])
                 enc = E.ByteArrayEncoding(type=np.dtype(NP[rt["dst"]]))
+            arr = _maybe_big_endian(arr, rt)
             back = enc.decode(enc.encode(arr))
         except Exception:
             return []          # rejected: allowed by the property
@@ -506,7 +533,7 @@ def oracle(case):
             if [str(x) for x in bk] != list(data):
                 v.append((f"C05/{name}/roundtrip", f"{data} -> {[str(x) for x in bk]}"))
     elif kind == "compress_int":
-        arr = np.array(data, dtype=NP[rt["dtype"]])
+        arr = _maybe_big_endian(np.array(data, dtype=NP[rt["dtype"]]), rt)
         try:
             c = _compress_fn(bcif.BinaryCIFData(arr))
             back = bcif.BinaryCIFData.deserialize(c.serialize()).array
@@ -520,7 +547,7 @@ def oracle(case):
             arr = np.array([float(x) for x in data], dtype=dt)
         tol = rt["tol"]
         from common import sandbox
-        res = sandbox.run_forked(_compress_float, [float(x) for x in arr], rt["ft"], tol, timeout=6)
+        res = sandbox.run_forked(_compress_float, [float(x) for x in arr], rt["ft"], tol, bool(rt.get("be")), timeout=6)
         if res[0] == "timeout":
             return [("C05/compress/float-hang", f"compress() does not terminate on {data}")]
         if res[0] != "ok":
@@ -565,6 +592,26 @@ def oracle(case):
             key = "C05/ByteArrayEncoding/float64-to-float32-overflow" if (math.isfinite(a) and not math.isfinite(b)) else "C05/bytes_float/roundtrip"
             v.append((key, f"ByteArray(FLOAT32) {a!r} -> {b!r}"))
             break
+    elif kind == "interval_float":
+        dt = np.float32 if rt["ft"] == "f4" else np.float64
+        mn, mx, n = rt["min"], rt["max"], rt["n"]
+        grid = np.linspace(mn, mx, n, dtype=dt)
+        step = (mx - mn) / (n - 1)
+        pts = [grid[i] for i in rt["on_grid"]] + [dt(mn + f * (mx - mn)) for f in rt["fracs"]]
+        arr = np.array(pts, dtype=dt)
+        try:
+            enc = E.IntervalQuantizationEncoding(mn, mx, n)
+            back = enc.decode(enc.encode(arr))
+        except Exception:
+            return []
+        slack = 4e-6 * max(abs(mn), abs(mx), 1.0) if rt["ft"] == "f4" else 1e-12
+        for k, (a, b) in enumerate(zip(arr, back)):
+            d = float(b) - float(a)
+            on = k < len(rt["on_grid"])
+            # a value on the grid decodes to itself; any value decodes to the next grid point at or above it
+            if (on and abs(d) > slack) or not (-slack <= d < step + slack):
+                v.append(("C05/interval/precision", f"IntervalQuantization({mn},{mx},{n}) {rt['ft']} {float(a)!r} -> {float(b)!r} (step {step})"))
+                break
     elif kind == "file":
         v += _file_roundtrip(rt)
     elif kind == "column":
@@ -572,11 +619,13 @@ def oracle(case):
     return v
 
 
-def _compress_float(xs, ft, tol):
+def _compress_float(xs, ft, tol, be=False):
     import numpy as np
     from biotite.structure.io.pdbx import bcif
     from biotite.structure.io.pdbx import compress as _compress_fn
     arr = np.array(xs, dtype=np.float32 if ft == "f4" else np.float64)
+    if be:
+        arr = arr.astype(arr.dtype.newbyteorder(">"))
     c = _compress_fn(bcif.BinaryCIFData(arr), float_tolerance=tol)
     back = bcif.BinaryCIFData.deserialize(c.serialize()).array
     return [float(x) for x in back], [type(e).__name__ for e in c.encoding]
@@ -638,6 +687,10 @@ def _file_roundtrip(rt):
     n = rt["n"]
     cat = bcif.BinaryCIFCategory()
     cols = {}
+    names = ["cat", "atom_site", "_private", "__dunder", "_", "tail_", "a__b", "x.y"]
+    cat_name = r.choice(names)
+    blk_name = r.choice(["blk", "1ABC", "_b", "data_x"])
+    cpre = r.choice(["", "_", "c_"])
     for name in ("i", "f", "s", "m"):
         if name == "i":
             arr = np.array([r.randint(-5000, 5000) for _ in range(n)], dtype=r.choice([np.int32, np.int64, np.uint8 if False else np.int16]))
@@ -648,20 +701,24 @@ def _file_roundtrip(rt):
         mask = None
         if name == "m":
             mask = np.array([r.choice([0, 0, 1, 2]) for _ in range(n)], dtype=np.uint8)
-        cols[name] = (arr, mask)
-        cat[name] = bcif.BinaryCIFColumn(arr, mask)
+        cols[cpre + name] = (arr, mask)
+        cat[cpre + name] = bcif.BinaryCIFColumn(arr, mask)
     f = bcif.BinaryCIFFile()
     blk = bcif.BinaryCIFBlock()
-    blk["cat"] = cat
-    f["blk"] = blk
+    blk[cat_name] = cat
+    f[blk_name] = blk
     out = []
     for label, ff in (("plain", f), ("compressed", _compress_fn(f))):
         buf = io.BytesIO()
         ff.write(buf)
         buf.seek(0)
         g = bcif.BinaryCIFFile.read(buf)
+        if list(g.keys()) != [blk_name] or list(g[blk_name].keys()) != [cat_name] or list(g[blk_name][cat_name].keys()) != list(cols):
+            out.append((f"C05/file/{label}-names", f"block {blk_name!r} category {cat_name!r} columns {list(cols)} read back as "
+                        f"{list(g.keys())} / {[list(b.keys()) for b in g.values()]}"))
+            continue
         for name, (arr, mask) in cols.items():
-            col = g["blk"]["cat"][name]
+            col = g[blk_name][cat_name][name]
             got = col.data.array
             ok = len(got) == len(arr) and all((str(a) == str(b)) if arr.dtype.kind == "U" else (abs(float(a) - float(b)) <= 2e-6 * abs(float(a)) + 1e-12) for a, b in zip(arr, got))
             mk = None if col.mask is None else [int(x) for x in col.mask.array]
@@ -671,7 +728,7 @@ def _file_roundtrip(rt):
 
 
 def nontrivial(case, impl_out):
-    if case["kind"] in ("file", "column"):
+    if case["kind"] in ("file", "column", "interval32"):
         return True
     data = (case.get("rt") or {}).get("data")
     if data is not None and len(set(data)) >= 2:
